@@ -78,7 +78,7 @@ def run_case(ctx, idx, rng, tier):
     dev = gen.gen_device(rng, xy=xy, max_seq=0.1, p_builtin=0.2)
     mapp = rng.random() < 0.3
     regB = gen.gen_register(rng, dev, nmin=1, nmax=4, kind="layout" if mapp else None)
-    ops, _ = concrete_program(ctx, rng, dev, regB, maps_by_traps=mapp)
+    ops, _ = concrete_program(ctx, rng, dev, regB, maps_by_traps=mapp, motifs={"dmm-twice": 0.6})
     if ops is None:
         ctx.count("discarded_after_C09")
         return
@@ -123,6 +123,12 @@ def run_case(ctx, idx, rng, tier):
             ctx.violation("expression-refused", f"building the arguments of {o['op']} from the variables raised "
                           f"{type(ev.exc).__name__}: {str(ev.exc)[:200]}", f"expression-refused:{type(ev.exc).__name__}", case=case)
             return
+        if ev.exc is not None and isinstance(ev.exc, (AssertionError, KeyError, IndexError, AttributeError, UnboundLocalError)):
+            # not a refusal with a reason but a crash inside the library, on a call the direct construction accepts
+            ctx.violation("template-call-crashes", f"{o['op']} on the parametrized sequence raised {type(ev.exc).__name__}: "
+                          f"{str(ev.exc)[:160]} (the same call is accepted when issued directly)",
+                          f"template-call-crashes:{o['op']}:{type(ev.exc).__name__}", case=case)
+            return
         if ev.exc is not None:
             # A call that succeeds when issued directly may be refused while the sequence is parametrized
             # (deferred DMM declaration, SLM ...): then no such parametrized sequence exists and the statement is
@@ -151,6 +157,28 @@ def run_case(ctx, idx, rng, tier):
              for n, v in v1.items()}
     results = {}
     for tag, vals in (("v1", v1), ("v1eps", v1eps), ("v2", v2), ("v1again", v1)):
+        if tag == "v2":
+            # between two builds: what the template hands out is the caller's to edit, and a template derived from it
+            # (switch_register to the same register) is a sequence of its own
+            snap_t = snapshot(seqA)
+            try:
+                with warnings.catch_warnings():
+                    warnings.simplefilter("ignore")
+                    handed = seqA.declared_variables
+                    if isinstance(handed, dict):
+                        handed["not_a_variable"] = None
+                        handed.pop(next(iter(handed)), None)
+                    if not mapp:
+                        other = seqA.switch_register(seqA.register)
+                        other.declare_variable("only_on_the_copy")
+                ctx.count("template_aliasing_probes")
+            except Exception:
+                ctx.count("template_aliasing_probe_refused")
+            if state_key(snapshot(seqA)) != state_key(snap_t):
+                ctx.violation("template-changed", f"editing the dict returned by declared_variables / declaring a variable on "
+                              f"a switch_register copy changed the template: {diff(snap_t, snapshot(seqA))[:3]}",
+                              "template-changed:shared-variables", case=case)
+                return
         before = state_key(snapshot(seqA))
         try:
             built, bexc = build(copy.deepcopy(vals)), None
